@@ -382,9 +382,7 @@ fn try_parse(parser: &mut VParser) -> (r: Result<Option<Self>, ParseError>)
                             break;
                         }
                         if close.is_empty() {
-                            return Err(ParseError::InvalidFieldValuesBrackets(
-                                close.to_string(),
-                            ));
+                            return Err(ParseError::InvalidFieldValuesBrackets(close.to_string()));
                         }
                     }
                     return Ok(Some(FieldType::Enum(values)));
@@ -421,9 +419,7 @@ fn try_parse(parser: &mut VParser) -> (r: Result<Option<Self>, ParseError>)
                             break;
                         }
                         if close.is_empty() {
-                            return Err(ParseError::InvalidFieldValuesBrackets(
-                                close.to_string(),
-                            ));
+                            return Err(ParseError::InvalidFieldValuesBrackets(close.to_string()));
                         }
                     }
                     return Ok(Some(FieldType::Set(values)));
